@@ -54,4 +54,14 @@ PROPS = {
         "rule": "lifecycle histories (stores with different durations, shards completed at different heights, 0-3 renewals, migrations, updates and force-pushes, cancel + re-creation of the same data id) drained across every scheduled height and every height the reference model expects an end. Reference model per stored shard: paidUntil = completion height + paid duration + renewals (migration hands the remaining term over). At each observed boundary: before paidUntil the shard exists, is Completed, keeps its provider, the provider still earns, model and alias exist; at paidUntil it is gone; the model never disappears while a paid shard remains and disappears when its last shard goes (unless a new version is in flight). Non-trivial = at least one shard reached its paidUntil through block advance.",
         "assumptions": LIFE_ASSUME + ["terminate, force-replace of the latest version and completed migration end a shard legitimately"],
     },
+    "C04": {
+        "tests": [{"name": "TestC04", "quick": 160, "thorough": 4000}],
+        "rule": "lifecycle histories (sizes 1e3-1e8, replica 1-3, durations 3600-12000, owner-paid and sponsor-paid, updates, force-pushes, 0-3 renewals, migrations, terminate at any height, cancel, timeouts with replica reduction, claims at arbitrary heights) drained to quiescence, then every provider claims. Reference ledger: (1) a successful Store / each SUCCESS entry of Renew debits exactly one account - sponsor's payment address if a payment DID is given, else the owner DID's payment address - by ceil(1e-6*size*replica*duration); failed messages move nothing; (2) escrow money (order+market+did accounts) only moves between escrows and client accounts, and a client gains only when it is payer / owner payment address of an order that ended or shrank in that step; (3) per provider, market payouts + unclaimed worker reward = sum over the shards it held of 1e-6*size*blocks held (1 coin per holding interval); (4) whenever orders end or shrink (terminate, cancel, expiry, timeout, replica reduction, force-push), client-side receipts = charged - income earned - earlier refunds within 1 coin per shard settlement + 1 per order; (5) at quiescence nothing but dust remains in the order/market escrows. Non-trivial = an order that was charged ended and a provider claimed.",
+        "assumptions": LIFE_ASSUME + ["refunds may go to the payer or to the owner's payment address (both allowed by the statement)", "no provider is drained of funds in this campaign, so market payouts are not mixed with collateral-debt repayment (C06/C07 cover debts)"],
+    },
+    "C07": {
+        "tests": [{"name": "TestC07", "quick": 200, "thorough": 5000}],
+        "rule": "lifecycle histories with AddVstorage / RemoveVstorage around the 1e6-byte-per-coin rounding boundary (k*1e6 + {-1,0,+1}, huge sizes), completions, renewals with top-ups, drained providers (collateral debt), migrations, expiries, terminations, claims. Per step (message, or the sao end-blocker traced individually) and per provider: balance change = collateral of its shards that ended (as recorded when taken, including renewal top-ups) - collateral newly taken + change of its recorded debt, exactly; the node escrow changes by exactly the sum of those flows (nothing leaks to anyone else); RemoveVstorage / ClaimReward change nobody else's balance; a failed message moves nothing; RemoveVstorage never removes more than the free capacity; 0 <= UsedStorage <= TotalStorage; capacity pledge returned never exceeds what was paid in. Non-trivial = a shard with recorded collateral ended and the provider had another pledge-affecting action (add/remove capacity, renewal, claim).",
+        "assumptions": LIFE_ASSUME + ["providers are not payers in generated worlds, so a provider's balance moves only through collateral, claims, capacity pledges and explicit bank sends"],
+    },
 }
